@@ -704,6 +704,51 @@ def c13_drop(R):
 
         verify(R, "C13.drop", "nsl.passes.ComputeTypes::ComputeTypeVisitor._ProcessExpression", run, label=kind)
 
+    # one visitor types every access of a module: the row type of an access does not depend on the accesses typed before it (arrays that agree
+    # in some dimensions and differ in others, in both orders; the bounds pass checks constants against these types)
+    shapes = [(2, 3, 4), (2, 3, 6), (5, 3, 4), (2, 3), (2, 4), (3, 3), (2, 3, 4, 2), (2, 3, 4, 5)]
+    bad = []
+    for s1, s2 in itertools.permutations(shapes, 2):
+        scope = ty.Scope()
+        scope.RegisterVariable("p", ty.ArrayType(ty.Integer(), list(s1)))
+        scope.RegisterVariable("q", ty.ArrayType(ty.Integer(), list(s2)))
+        scope.RegisterVariable("i", ty.Integer())
+        v = CT()
+        try:
+            v._ProcessExpression(a.ArrayExpression(a.PrimaryExpression("p"), a.PrimaryExpression("i")), scope)
+            got = v._ProcessExpression(a.ArrayExpression(a.PrimaryExpression("q"), a.PrimaryExpression("i")), scope)
+            if not (isinstance(got, ty.ArrayType) and [int(x) for x in got.GetSize()] == list(s2[1:])):
+                bad.append((s1, s2, repr(got)))
+        except Exception as e:
+            bad.append((s1, s2, f"{type(e).__name__}: {e}"))
+    w = bad[0] if bad else None
+
+    def _decl(name, shape):
+        return "int" + "".join(f"[{d}]" for d in shape) + f" {name};"
+
+    R.check("C13.drop.sequence", "nsl.passes.ComputeTypes::ComputeTypeVisitor._ProcessExpression", not bad,
+            detail=f"{len(bad)} of {len(shapes) * (len(shapes) - 1)} ordered pairs of arrays: the type of q[i] after p[i] was typed by the same visitor is wrong, e.g. {bad[:3]}",
+            replay=script("""
+                import io, contextlib
+                from nsl import Compiler
+                s1, s2 = {{s1}}, {{s2}}
+                decl = lambda n, s: 'int' + ''.join('[%d]' % d for d in s) + ' ' + n + ';'
+                res = []
+                for last, want in ((s2[-1] - 1, 'accepted'), (s2[-1], 'rejected')):
+                    idx1 = ''.join('[0]' for _ in s1)
+                    idx2 = ''.join('[%d]' % (d - 1) for d in s2[:-1]) + '[%d]' % last
+                    src = decl('p', s1) + ' ' + decl('q', s2) + ' export function f() -> int { return p%s + q%s; }' % (idx1, idx2)
+                    try:
+                        with contextlib.redirect_stdout(io.StringIO()):
+                            r = Compiler.Compiler().Compile(src)
+                    except BaseException as e:
+                        r = None
+                    got = 'accepted' if r is not None else 'rejected'
+                    print(src, '->', got, '; C13 expects', want)
+                    res.append(got == want)
+                if not all(res): print('REPLAY-CONFIRMED')
+                """, s1=list(w[0]), s2=list(w[1])) if w else None)
+
 
 ALPHA = "xyzwrgba?"
 
@@ -792,6 +837,43 @@ def c13_swizzle(R):
                     print(src, '->', 'accepted' if r is not None else 'rejected', '; C13 expects', {{want}})
                     if (r is None) != ({{want}} == 'rejected'): print('REPLAY-CONFIRMED')
                     """, n=n, mask=w[0].replace("?", "q"), want="accepted" if (_mask_ok(w[0]) and _mask_max(w[0]) < max(n, 2)) else "rejected") if w and n >= 2 else None)
+    # a module contains many swizzles and ONE visitor judges them all: the verdict on a swizzle does not depend on the swizzles judged before it
+    # (the same mask on a wider vector, on a vector of another component type, on the same vector)
+    for n1, n2 in ((4, 3), (4, 2), (3, 2), (2, 4), (3, 3), (4, 4)):
+        bad, cnt = [], 0
+        for k in (1, 2, 3, 4):
+            for tup in itertools.product(ALPHA, repeat=k):
+                s = "".join(tup)
+                if not (_mask_ok(s) and _mask_max(s) < n1):
+                    continue                      # (`valid` is sticky: only an accepted first swizzle leaves the second one's verdict visible)
+                for c2 in (ty.Float(), ty.Integer()):
+                    cnt += 1
+                    vis = cls()
+                    vis.SetErrorHandler(_handler())
+                    ag.visitor_step(vis, a.MemberAccessExpression(ag.E("p", ty.VectorType(ty.Float(), n1)), a.PrimaryExpression(s)), None)
+                    first_ok = vis.valid
+                    step = ag.visitor_step(vis, a.MemberAccessExpression(ag.E("q", ty.VectorType(c2, n2)), a.PrimaryExpression(s)), None)
+                    want_valid = _mask_max(s) < n2
+                    if first_ok is True and (vis.valid != want_valid or step.raised is not None):
+                        bad.append((s, vis.valid, repr(step.raised)))
+        w = bad[0] if bad else None
+        R.check(f"C13.swizzle.sequence[vector{n1},vector{n2}]", SWZ + "::ValidateSwizzleMaskVisitor.v_MemberAccessExpression", not bad,
+                detail=f"{len(bad)} of {cnt} (mask, component type) pairs misjudged on a {n2}-vector after the same mask was accepted on a {n1}-vector by the same visitor, e.g. {bad[:4]}",
+                replay=script("""
+                    import io, contextlib
+                    from nsl import Compiler
+                    n1, n2, mask = {{n1}}, {{n2}}, {{mask}}
+                    k = len(mask)
+                    rt = 'float' if k == 1 else 'float%d' % k
+                    src = 'export function f(float%d v, float%d w) -> %s { %s t = v.%s; return w.%s; }' % (n1, n2, rt, rt, mask, mask)
+                    try:
+                        with contextlib.redirect_stdout(io.StringIO()):
+                            r = Compiler.Compiler().Compile(src)
+                    except BaseException as e:
+                        r = None; print('rejected by', type(e).__name__, e)
+                    print(src, '->', 'accepted' if r is not None else 'rejected', '; C13 expects', {{want}})
+                    if (r is None) != ({{want}} == 'rejected'): print('REPLAY-CONFIRMED')
+                    """, n1=n1, n2=n2, mask=w[0], want="accepted" if _mask_max(w[0]) < n2 else "rejected") if w else None)
     # structs are not swizzles; the parent chain is visited
     vis = cls()
     vis.SetErrorHandler(_handler())
